@@ -132,11 +132,16 @@ func crafted() []string {
 		rel("i", inter(cu("a"), cu("b"))), rel("i3", inter(cu("a"), cu("b"), cu("c"))),
 		rel("x", diff(cu("a"), cu("b"))), rel("xi", inter(diff(cu("a"), cu("b")), cu("c"))),
 		rel("xu", union(diff(cu("a"), cu("b")), cu("c"))), rel("xx", diff(cu("c"), diff(cu("a"), cu("b")))),
+		// the exclusion bookkeeping of expandUnion feeding an intersection / an exclusion
+		rel("ux", inter(union(diff(cu("a"), cu("b")), cu("c")), cu("b"))),
+		rel("uy", inter(union(diff(cu("a"), cu("b")), diff(cu("c"), cu("b"))), cu("b"))),
+		rel("uz", diff(union(diff(cu("a"), cu("b")), diff(cu("c"), cu("b"))), cu("c"))),
+		rel("uw", inter(union(diff(cu("a"), cu("b")), diff(cu("a"), cu("c"))), union(cu("b"), cu("c")))),
 	}}}}
 	et := []fga.Tuple{t("doc:1", "a", "user:*"), t("doc:1", "a", "user:x"), t("doc:1", "b", "user:x"), t("doc:1", "b", "user:y"),
 		t("doc:1", "c", "user:*"), t("doc:1", "c", "user:z"), t("doc:2", "a", "user:x"), t("doc:2", "b", "user:*"), t("doc:2", "c", "user:y")}
 	for _, o := range []string{"doc:1", "doc:2"} {
-		for _, r := range []string{"i", "i3", "x", "xi", "xu", "xx"} {
+		for _, r := range []string{"i", "i3", "x", "xi", "xu", "xx", "ux", "uy", "uz", "uw"} {
 			mk(e, et, o, r, "user")
 		}
 	}
